@@ -40,6 +40,23 @@ theorem unravel_ravel (s idx : List Nat) (h : InBounds idx s) : unravel s (ravel
 theorem unravel_in_bounds (s : List Nat) (k : Nat) (h : k < prod s) : InBounds (unravel s k) s :=
   unravel_inBounds s k h
 
+/-- `np.ravel_multi_index` / `np.unravel_index` *with their checks* (the maps the driver runs and the
+harness compares with NumPy, refusals included): an index is accepted exactly when it is `InBounds`,
+a flat index exactly when it is below the size — the hypotheses of the two theorems above are what
+NumPy checks — and on what is accepted the two are inverse to each other. -/
+theorem ravel_checked_inverse (s : List Nat) :
+    (∀ idx, (ravelChecked s idx).toBool = true ↔ InBounds idx s) ∧
+    (∀ k, (unravelChecked s k).toBool = true ↔ k < prod s) ∧
+    (∀ k, k < prod s → (unravelChecked s k).bind (ravelChecked s) = .ok k) ∧
+    (∀ idx, InBounds idx s → (ravelChecked s idx).bind (unravelChecked s) = .ok idx) := by
+  refine ⟨fun idx => ?_, fun k => ?_, fun k hk => ?_, fun idx hi => ?_⟩
+  · by_cases h : InBounds idx s <;> simp [ravelChecked, h, Except.toBool]
+  · by_cases h : k < prod s <;> simp [unravelChecked, h, Except.toBool]
+  · simp [unravelChecked, ravelChecked, hk, Except.bind, unravel_inBounds s k hk, ravel_unravel' s k hk]
+  · simp [unravelChecked, ravelChecked, hi, Except.bind, ravel_lt s idx hi, unravel_ravel' s idx hi]
+
+example : InBounds [1, 2] [2, 3] ∧ ¬ InBounds [2, 0] [2, 3] ∧ ¬ InBounds [1] [2, 3] := by decide
+
 /-- Element `idx` of `a.reshape(s)` is the element of `a` with the same row-major rank, for every
 pair of shapes. -/
 theorem reshape_at (a b : Arr) (s idx : List Nat) (h : a.reshape s = .ok b) (hi : InBounds idx s) :
